@@ -409,19 +409,23 @@ P_NameIsCellsName(lay, cname, o) ==
     /\ IF IsDef(lay) THEN ~o.islam /\ o.defname = cname ELSE o.islam
 
 \* from the def line on, formula.source consists of exactly the lines of the layout, in
-\* order, each indented relative to the def as it was (docstring lines apart: DocInert)
+\* order, each indented relative to the def as it was (docstring lines apart: DocInert; the
+\* white space in front of a line that continues a string literal is part of the string:
+\* BehavesLikeFunction speaks about it, not this predicate)
 P_BodyUntouched(lay, T0, o) ==
     IF IsDef(lay)
     THEN LET h   == HdrIdx(T0)
              docIds == IdsOf(T0, {"doc"})
+             inStr  == IdsOf(T0, {"strB"})
              exp == [i \in 1..(Len(T0) - h + 1) |->
-                        IF IsBlank(T0[h + i - 1]) THEN <<0, 0>>
+                        IF IsBlank(T0[h + i - 1]) \/ T0[h + i - 1].k = "strB" THEN <<T0[h + i - 1].id * (IF IsBlank(T0[h + i - 1]) THEN 0 ELSE 1), 0>>
                         ELSE <<T0[h + i - 1].id, T0[h + i - 1].col - T0[h].col>>]
              at  == {i \in DOMAIN o.lines : o.lines[i][1] = T0[h].id}
          IN /\ Cardinality(at) = 1
             /\ LET oh  == CHOOSE i \in at : TRUE
                    got == [i \in 1..(Len(o.lines) - oh + 1) |->
                               IF o.lines[oh + i - 1][1] = 0 THEN <<0, 0>>
+                              ELSE IF o.lines[oh + i - 1][1] \in inStr THEN <<o.lines[oh + i - 1][1], 0>>
                               ELSE <<o.lines[oh + i - 1][1], o.lines[oh + i - 1][2] - o.lines[oh][2]>>]
                IN NonDocLines(docIds, got) = NonDocLines(docIds, exp)
             /\ \A i \in DOMAIN o.lines : o.lines[i][1] # -1
